@@ -48,3 +48,57 @@ func VerifC19_CanaryCreateExpectationKey() {
 	verifrt.Assert(okOther, "C19.canaryCreate.expectationNotSharedWithOtherReleases")
 	verifrt.Cover("done")
 }
+
+// VerifC19_CanaryListingIsPerRelease: the canary Deployments a release works on (scales, adopts, strips of their
+// finalizer when it finalizes) are exactly those in the listing whose controller owner is *this* BatchRelease — by UID.
+// Canary Deployments of another BatchRelease in the same namespace (same kind of owner, similar names, even the same
+// pod template), Deployments owned by something else and un-owned ones are never taken for its own.
+func VerifC19_CanaryListingIsPerRelease() {
+	isCtrl := true
+	owners := []metav1.OwnerReference{
+		{APIVersion: "rollouts.kruise.io/v1beta1", Kind: "BatchRelease", Name: "orders", UID: "br-uid", Controller: &isCtrl},
+		{APIVersion: "rollouts.kruise.io/v1beta1", Kind: "BatchRelease", Name: "orders-v2", UID: "br-other-uid", Controller: &isCtrl},
+		{APIVersion: "apps/v1", Kind: "Deployment", Name: "orders", UID: "br-uid-2", Controller: &isCtrl},
+		// an owner reference to this release that is not the controller reference
+		{APIVersion: "rollouts.kruise.io/v1beta1", Kind: "BatchRelease", Name: "orders", UID: "br-uid"},
+	}
+	n := verifrt.Bound("deployments", 2, 3)
+	items := make([]apps.Deployment, n)
+	mine := make([]bool, n)
+	for i := range items {
+		items[i].Namespace, items[i].Name = "shop", []string{"orders-a", "orders-b", "orders-c"}[i]
+		k := verifrt.IntRange("deployment.owner", 0, 4)
+		if k < 4 {
+			items[i].OwnerReferences = []metav1.OwnerReference{owners[k]}
+		}
+		mine[i] = k == 0
+	}
+	cli := &symclient.Client{}
+	cli.ListFn = func(list client.ObjectList, opts []client.ListOption) error {
+		if l, ok := list.(*apps.DeploymentList); ok {
+			l.Items = items
+		}
+		return nil
+	}
+	key := types.NamespacedName{Namespace: "shop", Name: "orders"}
+	rc := newCanary(cli, key)
+	release := &v1beta1.BatchRelease{TypeMeta: metav1.TypeMeta{APIVersion: "rollouts.kruise.io/v1beta1", Kind: "BatchRelease"}, ObjectMeta: metav1.ObjectMeta{Namespace: "shop", Name: "orders", UID: "br-uid"}}
+	got, err := rc.listDeployment(release)
+	verifrt.Assert(err == nil, "C19.canaryListing.noError")
+	want := 0
+	for i := range items {
+		in := false
+		for _, g := range got {
+			if g.Name == items[i].Name {
+				in = true
+			}
+		}
+		if mine[i] {
+			want++
+			verifrt.Assert(in, "C19.canaryListing.ownCanaryDeploymentsListed")
+		} else {
+			verifrt.Assert(!in, "C19.canaryListing.nothingOfAnotherOwnerListed")
+		}
+	}
+	verifrt.Assert(len(got) == want, "C19.canaryListing.exactlyTheOwnOnes")
+}
